@@ -194,36 +194,7 @@ def check(ctx):
     ctx.floor(R4, "struct literals of identifier::Identifier", len(lits), 1)
     for body, i in lits:
         ctx.require(R4, body.key == IDENT + "::new", where(body, i), "identifier::Identifier constructed in %s" % body.key, [body.key.split("::{closure")[0], "identifier-literal"])
-    inew = prog.must_body(IDENT + "::new")
-
-    def model(cs_, args):
-        if cs_.is_("acme_common::to_idna"):
-            return ok(Val("unknown", "IDNA(%r)" % (args[0].deref(),)))
-        if cs_.is_("core::str::traits::FromStr::from_str") or cs_.is_("core::net::ip_addr::IpAddr::from_str", "*IpAddr as core::str::traits::FromStr>::from_str"):
-            return ok(Val("unknown", "IPADDR(%r)" % (args[0].deref(),)))
-        if cs_.is_("alloc::string::ToString::to_string") and args and (args[0].deref().v or "").__class__ is str and "IPADDR" in str(args[0].deref().v):
-            return Val("unknown", "TEXT(%s)" % args[0].deref().v)
-        if cs_.is_("acmed::acme_proto::Challenge::from_str"):
-            return ok(marker("CHALLENGE"))
-        if cs_.is_("acmed::identifier::IdentifierType::supported_challenges"):
-            return marker("SUPPORTED")
-        if cs_.is_("core::slice::<impl [T]>::contains"):
-            from ..absint import vbool
-            return vbool(True)
-        return None
-
-    for v, wantpat in (("Dns", r"IDNA\(.*VALUE"), ("Ip", r"TEXT\(IPADDR\(.*VALUE")):
-        r = run(inew, {1: variant(IDT, v), 2: Val("ref", marker("VALUE")), 3: Val("ref", marker("CH")), 4: Val("ref", marker("ENV"))}, model)
-        got = None
-        if r.kind == "return":
-            ret = r.ret.deref()
-            if ret.k == "adt" and ret.extra[1] == "Ok":
-                idv = ret.v[0].deref()
-                if idv.k == "adt":
-                    names = prog.adt_fields(IDENT)
-                    got = idv.v[names.index("value")].deref()
-        ctx.require(R4, got is not None and re.search(wantpat, repr(got)) is not None, "%s:%s" % (inew.file, inew.line),
-                    "Identifier::new(%s, v).value = %s (got %r, run %s)" % (v, "to_idna(v)" if v == "Dns" else "IpAddr::from_str(v).to_string()", got, r.kind), [IDENT + "::new", "normalise", v])
+    normalisation_rule(ctx, R4)
     tg = prog.must_body("acmed::config::Identifier::to_generic")
     for c in tg.calls_to(IDENT + "::new"):
         ctx.ok(R4, "config::Identifier::to_generic -> Identifier::new")
@@ -363,3 +334,39 @@ def csr_internals(ctx):
     # the CSR sent is this CSR
     for c in b.calls_to("acmed::acme_proto::http::finalize_order"):
         pass
+
+
+def normalisation_rule(ctx, R4):
+    """Identifier::new(type, v).value, evaluated per identifier type: to_idna(v) for Dns, IpAddr::from_str(v).to_string() for Ip —
+    shared with C06 (the certificate's SAN text is canonical, so a non-canonical configured IP would look `missing` for ever)"""
+    prog = ctx.prog
+    inew = prog.must_body(IDENT + "::new")
+
+    def model(cs_, args):
+        if cs_.is_("acme_common::to_idna"):
+            return ok(Val("unknown", "IDNA(%r)" % (args[0].deref(),)))
+        if cs_.is_("core::str::traits::FromStr::from_str") or cs_.is_("core::net::ip_addr::IpAddr::from_str", "*IpAddr as core::str::traits::FromStr>::from_str"):
+            return ok(Val("unknown", "IPADDR(%r)" % (args[0].deref(),)))
+        if cs_.is_("alloc::string::ToString::to_string") and args and (args[0].deref().v or "").__class__ is str and "IPADDR" in str(args[0].deref().v):
+            return Val("unknown", "TEXT(%s)" % args[0].deref().v)
+        if cs_.is_("acmed::acme_proto::Challenge::from_str"):
+            return ok(marker("CHALLENGE"))
+        if cs_.is_("acmed::identifier::IdentifierType::supported_challenges"):
+            return marker("SUPPORTED")
+        if cs_.is_("core::slice::<impl [T]>::contains"):
+            from ..absint import vbool
+            return vbool(True)
+        return None
+
+    for v, wantpat in (("Dns", r"IDNA\(.*VALUE"), ("Ip", r"TEXT\(IPADDR\(.*VALUE")):
+        r = run(inew, {1: variant(IDT, v), 2: Val("ref", marker("VALUE")), 3: Val("ref", marker("CH")), 4: Val("ref", marker("ENV"))}, model)
+        got = None
+        if r.kind == "return":
+            ret = r.ret.deref()
+            if ret.k == "adt" and ret.extra[1] == "Ok":
+                idv = ret.v[0].deref()
+                if idv.k == "adt":
+                    names = prog.adt_fields(IDENT)
+                    got = idv.v[names.index("value")].deref()
+        ctx.require(R4, got is not None and re.search(wantpat, repr(got)) is not None, "%s:%s" % (inew.file, inew.line),
+                    "Identifier::new(%s, v).value = %s (got %r, run %s)" % (v, "to_idna(v)" if v == "Dns" else "IpAddr::from_str(v).to_string()", got, r.kind), [IDENT + "::new", "normalise", v])
